@@ -62,7 +62,12 @@ VerifyClauses(s, ev) ==
                THEN {"C02.BrokenChainUsed"} ELSE {})
        ELSE \* keep-going mode (C07)
          IF ~struct \/ BeneathNonDir(s, FE) THEN
-            (IF ev.end = "ok" /\ ev.ret /\ ~may THEN {"C07.FalseAccept"} ELSE {})
+            \* (which paths have to be reported is not judged here; but a tree that does not match must
+            \* not pass without ANY report, and the result must follow the handler's answers)
+            (IF ev.end = "ok" /\ ev.ret /\ ~may /\ ev.reported = <<>> THEN {"C07.FalseAccept"} ELSE {})
+            \cup (IF ev.end = "ok" /\
+                     (ev.ret = (\E k \in DOMAIN ev.reported : ev.reported[k][2] = "F"))
+                  THEN {"C07.Result"} ELSE {})
             \cup (IF ev.end = "ok" /\ (acc = {} \/ ~AllParsable(s, acc) \/ ChainBroken(s, sub, acc))
                   THEN {"C02.BrokenChainUsed"} ELSE {})
          ELSE
